@@ -376,6 +376,11 @@ def _fstr_constructor(loader, node):
         try:
             return FStrNode(value, *args, **kwargs)
         except ValueError:
+            # wrap the text in quotes which do not occur in it (a quote inside a replacement field cannot be escaped)
+            for quote in ("'", '"', "'''", '"""'):
+                if quote not in value and not value.endswith(quote[0]) and (len(quote) == 3 or '\n' not in value):
+                    return FStrNode('f' + quote + value + quote, *args, **kwargs)
+
             return FStrNode("f'" + value.replace(r"'", r"\'") + "'", *args, **kwargs)
 
     return _make_node(loader, node, node_type=_maybe_fix_fstr, parse_scalars=False)
